@@ -144,6 +144,14 @@ func (th *Thread) binop(op token.Token, T types.Type, x, y Value) Value {
 			th.rtPanic("integer divide by zero")
 		}
 		if k.signed {
+			if m.divSplit > 0 && b.IsConst() && !a.IsConst() {
+				if q, r, ok := m.splitConstDiv(a, b); ok {
+					if op == token.QUO {
+						return q
+					}
+					return r
+				}
+			}
 			if op == token.QUO {
 				return ts.Bin(OpSDiv, a, b)
 			}
@@ -512,4 +520,65 @@ func (th *Thread) conv(dst, src types.Type, x Value) Value {
 	}
 	m.unsupported(fmt.Sprintf("conversion of %T from %v to %v", x, src, dst))
 	return nil
+}
+
+// splitConstDiv replaces a signed division of a symbolic dividend by a positive constant
+// with a case split on the quotient (harness opt-in, verifrt.SplitConstDivision(n)):
+// the path forks on q in (-n, n), each side carrying only the two comparisons
+// q*c <= a < (q+1)*c (truncated division: mirrored for negative a), so the solver never
+// sees a 64-bit divider.  A dividend outside the 2n-1 cases keeps the ordinary bvsdiv/bvsrem
+// term (on a path whose condition excludes the cases).
+func (m *Machine) splitConstDiv(a, b *Term) (q, r *Term, ok bool) {
+	ts := m.ts
+	w := a.W
+	sx := func(v uint64) int64 {
+		if w < 64 {
+			v &= (1 << uint(w)) - 1
+			if v>>(uint(w)-1) == 1 {
+				return int64(v) - (1 << uint(w))
+			}
+		}
+		return int64(v)
+	}
+	c := sx(b.Val)
+	n := int64(m.divSplit)
+	if c <= 1 || w < 8 {
+		return nil, nil, false
+	}
+	// the case bounds must themselves be representable
+	lim := int64(1)<<uint(w-1) - 1
+	if c > lim/(n+1) {
+		return nil, nil, false
+	}
+	k := func(v int64) *Term { return ts.Const(w, uint64(v)) }
+	if res, hit := m.divMemo[a]; hit && res.c == c {
+		return res.q, res.r, true
+	}
+	done := func(q, r *Term) (*Term, *Term, bool) {
+		if m.divMemo == nil {
+			m.divMemo = map[*Term]divRes{}
+		}
+		m.divMemo[a] = divRes{c, q, r}
+		return q, r, true
+	}
+	for i := int64(0); i < n; i++ {
+		in := ts.And(ts.Cmp(OpSLe, k(i*c), a), ts.Cmp(OpSLt, a, k((i+1)*c)))
+		if m.decide(in) {
+			return done(k(i), ts.Bin(OpSub, a, k(i*c)))
+		}
+	}
+	for i := int64(0); i < n; i++ {
+		// -(i+1)c < a <= -i*c  (a < 0): quotient -i, remainder a + i*c
+		in := ts.And(ts.Cmp(OpSLt, k(-(i+1)*c), a), ts.Cmp(OpSLe, a, k(-i*c)))
+		if m.decide(in) {
+			return done(k(-i), ts.Bin(OpAdd, a, k(i*c)))
+		}
+	}
+	// outside the cases: the plain division term under a path condition that excludes them
+	return nil, nil, false
+}
+
+type divRes struct {
+	c    int64
+	q, r *Term
 }
